@@ -1,7 +1,9 @@
 #!/usr/bin/env python3
 """Operation generator for engine `rbflush` (C04).  All randomness from --seed.
 
-A history is: `new L C`, `term TL TC ORACLE WS PEN SEED`, a C03-style drawing program, `flush`, and (often) a second
+A history is: `new L C`, `term TL TC ORACLE WS PEN SEED` (the harness's grid terminal) or, for about a quarter of the
+histories, `termm TL TC PEN SEED` (the library's own mock terminal, at least as large as the buffer, one-column CHAR code
+points only: a double-width character in its last column makes mtd_print write past the line - known finding), a C03-style drawing program, `flush`, and (often) a second
 and third round of drawing + `flush` onto the terminal as the previous flush left it.
 
 quick / thorough: random drawing programs (every primitive of engine `rb`) on buffers 1x1 .. 6x12, biased towards what
@@ -111,8 +113,11 @@ CHAR_W1 = [65, 97, 0x23, 0xe9, 0x2500, 0x3a9, 0x10400]
 CHAR_OTHER = [0xff21, 0x301, 0x1f600, 0x200b]
 
 
+ONLY_W1 = [False]   # histories flushed to the library's mock terminal keep to one-column CHAR code points
+
+
 def gen_cp():
-    if rng.random() < 0.015:
+    if not ONLY_W1[0] and rng.random() < 0.015:
         feat["char_not_width1"] += 1
         return rng.choice(CHAR_OTHER)
     return rng.choice(CHAR_W1)
@@ -267,11 +272,21 @@ class Hist:
         self.xl = (0, 0); self.saved = []; self.cursor = False; self.texts = []
 
 
+def gen_mockterm(L, C):
+    """The library's own mock terminal (second configuration): at least as large as the buffer."""
+    r = rng.random()
+    if r < 0.6: tl, tc = L, C
+    else: tl, tc = L + rng.choice([0, 1, 2]), C + rng.choice([0, 1, 3])
+    pen = "NONE" if rng.random() < 0.3 else gen_pen(allow_null=False)
+    feat["mockterm"] += 1
+    return f"termm {tl} {tc} {pen} {rng.randint(0, 9999)}"
+
+
 def gen_term(L, C):
     r = rng.random()
     if r < 0.55: tl, tc = L, C
     elif r < 0.85: tl, tc = L + rng.choice([0, 1, 2]), C + rng.choice([0, 1, 3])
-    elif r < 0.93: tl, tc = max(1, L - 1), max(1, C - rng.choice([0, 1, 2]))
+    elif r < 0.93: tl, tc = max(1, L - 1), max(1, C - rng.choice([0, 0, 0, 1, 2]))
     else: tl, tc = L + 3, C + 8
     oracle = rng.choice([0, 0, 0x7fffffff, 0x7fffffff, 0x55555555 & 0x7fffffff, 0x2aaaaaaa, rng.getrandbits(31)])
     ws = 1 if rng.random() < 0.3 else 0
@@ -286,7 +301,8 @@ def random_history():
     L = rng.choice([1, 1, 2, 2, 3, 3, 4, 5, 6]); C = rng.choice([1, 2, 3, 4, 5, 5, 6, 7, 8, 10, 12])
     sizes[f"{L}x{C}"] += 1
     h = Hist(L, C)
-    h.emit(gen_term(L, C))
+    ONLY_W1[0] = rng.random() < 0.25
+    h.emit(gen_mockterm(L, C) if ONLY_W1[0] else gen_term(L, C))
     rounds = rng.choice([1, 1, 2, 2, 3])
     for k in range(rounds):
         if rng.random() < 0.15:
@@ -297,6 +313,7 @@ def random_history():
         h.emit("flush"); h.flushed()
     if rng.random() < 0.1:
         h.emit("getcells")
+    ONLY_W1[0] = False
     return h.ops
 
 
@@ -312,7 +329,11 @@ def wide_history():
     tc = C + rng.choice([0, 0, 1, 5])
     oracle = rng.choice([0, 0x7fffffff, rng.getrandbits(31)])
     pen = "NONE" if rng.random() < 0.4 else gen_pen(allow_null=False)
-    h.emit(f"term {L} {tc} {oracle} {1 if rng.random() < 0.3 else 0} {pen} {rng.randint(0, 9999)}")
+    if rng.random() < 0.2:
+        feat["mockterm"] += 1
+        h.emit(f"termm {L} {tc} {pen} {rng.randint(0, 9999)}")
+    else:
+        h.emit(f"term {L} {tc} {oracle} {1 if rng.random() < 0.3 else 0} {pen} {rng.randint(0, 9999)}")
 
     def long_hline(line):
         c1 = rng.randint(0, 3); c2 = C - 1 - rng.randint(0, 3)
@@ -377,6 +398,48 @@ def wide_history():
     return h.ops
 
 
+def edge_history():
+    """Buffer exactly as wide as the terminal, lines whose last column is filled by printed content (text, line cell,
+    char - or an erase, for contrast), and following lines whose first pending cell is at column 0 (an erase, a text
+    that starts with the blanked half of a double-width character, plain text, a line cell) or further right: whatever
+    the flush assumes about the cursor after the last column (pending wrap on a VT) shows here."""
+    L = rng.choice([2, 2, 3, 4]); C = rng.choice([2, 3, 4, 5, 6, 8, 12])
+    sizes[f"{L}x{C}"] += 1
+    feat["edge_history"] += 1
+    h = Hist(L, C)
+    oracle = rng.choice([0, 0x7fffffff, rng.getrandbits(31)])
+    pen = "NONE" if rng.random() < 0.4 else gen_pen(allow_null=False)
+    if rng.random() < 0.3:
+        feat["mockterm"] += 1
+        h.emit(f"termm {L + rng.choice([0, 0, 1])} {C} {pen} {rng.randint(0, 9999)}")
+    else:
+        h.emit(f"term {L + rng.choice([0, 0, 1])} {C} {oracle} {1 if rng.random() < 0.3 else 0} {pen} {rng.randint(0, 9999)}")
+    for line in range(L):
+        if rng.random() < 0.25:
+            h.emit(f"setpen {gen_pen()}")
+        # what starts the line
+        r = rng.random()
+        if r < 0.35: h.emit(f"erase_at {line} 0 {rng.randint(1, C)}"); feat["edge_first_erase"] += 1
+        elif r < 0.50:
+            h.emit(f"text_at {line} -1 {hexs((rng.choice(WIDE) + rng.choice(ASCII)).encode())}"); feat["edge_first_half_wide"] += 1
+        elif r < 0.65: h.emit(f"text_at {line} 0 {hexs(rng.choice(ASCII).encode())}"); feat["edge_first_text"] += 1
+        elif r < 0.75: h.emit(f"char_at {line} 0 {rng.choice(CHAR_W1)}")
+        elif r < 0.85: h.emit(f"vline {line} {line} 0 {rng.randint(1, 3)} 3")
+        # what fills the last column
+        r = rng.random()
+        if r < 0.30:
+            k = rng.randint(1, min(C, 4))
+            h.emit(f"text_at {line} {C - k} {hexs(''.join(rng.choice(ASCII) for _ in range(k + rng.choice([0, 0, 2]))).encode())}")
+            feat["edge_last_text"] += 1
+        elif r < 0.45 and C >= 2:
+            h.emit(f"text_at {line} {C - 2} {hexs(rng.choice(WIDE).encode())}"); feat["edge_last_wide"] += 1
+        elif r < 0.60: h.emit(f"char_at {line} {C - 1} {rng.choice(CHAR_W1)}"); feat["edge_last_char"] += 1
+        elif r < 0.75: h.emit(f"hline {line} {rng.randint(0, C - 1)} {C - 1} {rng.randint(1, 3)} 3"); feat["edge_last_line"] += 1
+        elif r < 0.87: h.emit(f"erase_at {line} {rng.randint(0, C - 1)} {C}"); feat["edge_last_erase"] += 1
+    h.emit("flush")
+    return h.ops
+
+
 def exhaustive():
     """Every program of <= 3 drawing operations over a reduced alphabet on a 2x6 buffer, four terminal configurations."""
     alpha = [
@@ -421,7 +484,10 @@ else:
         lines.extend(random_history())
     for _ in range(W):
         lines.extend(wide_history())
-    info = {"histories": N + W, "wide_histories": W}
+    E = 250 if a.tier == "quick" else 1500
+    for _ in range(E):
+        lines.extend(edge_history())
+    info = {"histories": N + W + E, "wide_histories": W, "edge_histories": E}
 open(a.out, "w").write("\n".join(lines) + "\n")
 info.update({"ops": len(lines), "op_mix": dict(stats.most_common()), "text_kinds": dict(textkinds), "features": dict(feat),
              "buffer_sizes": dict(sizes.most_common(8))})
